@@ -162,7 +162,12 @@ def run_shard(shard, tier, seed, acc):
                      ')', 'p)', '(p', 'p q', 'not', 'A A', '-->', '- ->', '->', 'p -> q', 'p --> --> q',
                      'true false', '$', 'p $', '$ p', '\xe9', 'p\x00', 'p.q', 'p,q', '1', '1p', 'p1',
                      '_', '__', 'p -- > q', '"unterminated', "'p'", 'A(', 'E)', 'p U', 'U p', 'p U U',
-                     '((((p))))', '((((p)))', 'not not not p', 'A F G q', 'E G p', 'A (p U (q R p))']:
+                     '((((p))))', '((((p)))', 'not not not p', 'A F G q', 'E G p', 'A (p U (q R p))',
+                     '"\\x"', '"c:\\users"', '"\\u12"', '"\\N"', '"a\\"b"', '"\\\\"', '"\\t"', '"\\x41"',
+                     '"\\d"', '"it\'s"', 'not "\\x" and p', 'A G ("c:\\users" --> E F "c:\\new")',
+                     '"\\U0001"', '"{p}"', '"%s"', '"\\', 'p and "\\x', 'p\u00e9', 'x\u00b2', 'q1\u0663',
+                     'A G (caf\u00e9 --> p)', '\u00e9', 'p \u00e9', '\u00e9p', 'p\u00a0q', 'p\u2003and q',
+                     '\uff50', 'p\u0301']:
             n = 0
             for logic in LOGICS:
                 if judge(logic, text, acc):
